@@ -120,7 +120,7 @@ def regSpec (toks : List String) : String :=
     else if ls.any (·.rtype.isNone) then "nodomain"
     else showLines ls
 
-def stepModel (v : Variant) (re : Bool) (line : String) : String :=
+def stepModel (v : Variant) (re : Bool) (sshEsc : Bool) (line : String) : String :=
   match Driver.words line with
   | ["fmt", h, u, r, m] =>
     match Hex.decodeToChars h, Hex.decodeToChars u, r.toNat?, Hex.decodeToChars m with
@@ -167,7 +167,7 @@ def stepModel (v : Variant) (re : Bool) (line : String) : String :=
     match Hex.decodeToChars h, Hex.decodeToChars lu, Hex.decodeToChars ru, r.toNat?, parseOpt ap, parseOpt ar,
           parseOpt dp, Hex.decodeToChars c, decodeAll rest with
     | some h, some lu, some ru, some r, some ap, some ar, some dp, some c, some ws =>
-      match Ssh.sshCall v ⟨h, ru, r⟩ ap ar dp lu (pcp = "1") ws c [] with
+      match Ssh.sshCall v sshEsc ⟨h, ru, r⟩ ap ar dp lu (pcp = "1") ws c [] with
       | some a => "ok " ++ " ".intercalate (a.map hx)
       | none => "ub"
     | _, _, _, _, _, _, _, _, _ => "bad-op"
@@ -201,14 +201,16 @@ def stepSpec (line : String) : String :=
 def main (args : List String) : IO UInt32 := do
   let stdin ← IO.getStdin
   match args with
-  | ["model", v] =>
+  | "model" :: v :: flags =>
+    -- reexpand = the repair of F09-2BR (Opt.Rcmd.reExpand); sshesc = the proposed repair of F09-SSHPCT
+    -- (findings/C09-sshpct.patch, Exec.Ssh.escapePct)
     match variantOf v with
-    | some v => Driver.forLines stdin () (fun _ l => ((), stepModel v false l)); return 0
-    | none => IO.eprintln "variant: unchanged|repaired|d10|d11"; return 2
-  | ["model", v, "reexpand"] =>
-    -- reexpand = the proposed repair of F09-2BR (findings/C09.patch): Opt.Rcmd.reExpand
-    match variantOf v with
-    | some v => Driver.forLines stdin () (fun _ l => ((), stepModel v true l)); return 0
+    | some v =>
+      if flags.all (fun f => f = "reexpand" || f = "sshesc") then
+        Driver.forLines stdin () (fun _ l => ((), stepModel v (flags.contains "reexpand") (flags.contains "sshesc") l))
+        return 0
+      else
+        IO.eprintln "flags: reexpand sshesc"; return 2
     | none => IO.eprintln "variant: unchanged|repaired|d10|d11"; return 2
   | ["spec"] => Driver.forLines stdin () (fun _ l => ((), stepSpec l)); return 0
   | _ => IO.eprintln "usage: pdshmodel rcmd model <variant> | spec"; return 2
